@@ -481,6 +481,7 @@ void rs_verif_hook(unsigned point, const void *p, uint64_t a, uint64_t b)
 			if(lm->n != array_count(lp->p.p_msgs))
 				vh_violation("C05", "history-shadow-mismatch", "LP %llu after init: history has %u entries, %u operations observed", (unsigned long long)(lp - lps), (unsigned)array_count(lp->p.p_msgs), lm->n);
 			owner_check(lp, "initialised");
+			t->cur.fwd++; /* the LP_INIT execution is accounted as a processed message in the first statistics record */
 			PROGRESS();
 			return;
 		}
